@@ -1,5 +1,6 @@
 import Osmt.Store
-/-! `store` mode: `leaf k` | `app f i..` | `pred i` | `eq i j` | `and i..` | `or i..` (arguments are line numbers) → the model's identity of each result -/
+/-! `store` mode: `leaf k` | `app f i..` | `pred i` | `eq i j` | `and i..` | `or i..`, and for the arithmetic harness `ivar k` | `bvar k` |
+`scale c i` | `plus i..` | `xor i j` (arguments are line numbers) → the model's identity of each result -/
 namespace Driver
 open Osmt.Store
 
@@ -7,6 +8,11 @@ def symOf (op f : String) (arity : Nat) : Nat :=
   -- a number per (operator, name, arity); commutative symbols are those ≥ 1000000
   match op with
   | "leaf" => 10 + f.toNat!
+  | "ivar" => 2000 + f.toNat!
+  | "bvar" => 3000 + f.toNat!
+  | "scale" => 4000 + (f.toList.foldl (fun a c => (a * 31 + c.toNat) % 997) 7)
+  | "plus" => 1000004
+  | "xor" => 1000005
   | "pred" => 5
   | "eq" => 1000001
   | "and" => 1000002
@@ -24,7 +30,8 @@ def runStore (lines : List String) : List String := Id.run do
     | [] => pure ()
     | [""] => pure ()
     | op :: rest =>
-      let (f, argToks) := if op == "app" then (rest.headD "", rest.drop 1) else if op == "leaf" then (rest.headD "0", []) else ("", rest)
+      let (f, argToks) := if op == "app" || op == "scale" then (rest.headD "", rest.drop 1)
+                          else if op == "leaf" || op == "ivar" || op == "bvar" then (rest.headD "0", []) else ("", rest)
       let args := argToks.filterMap (fun t => t.toNat?.bind (fun i => res[i]?))
       if op == "eq" && args.length == 2 && args[0]! == args[1]! then
         res := res.push 0
